@@ -1,7 +1,8 @@
 #!/bin/bash
-# tools/batch_eval.sh <logfile> -- lines of "dir stem checks..." on stdin
+# tools/batch_eval.sh <logfile> -- lines of "dir stem checks..." on stdin; each result line is prefixed with the directory's parent name
 log=$1
 while read -r dir stem checks; do
   [ -z "$dir" ] && continue
-  /verif/tools/eval_seeded.sh "$dir" "$stem" $checks 2>&1 | grep -v WARNING >> "$log"
+  tag=$(basename "$(dirname "$dir")")
+  /verif/tools/eval_seeded.sh "$dir" "$stem" $checks 2>&1 | grep -v WARNING | sed "s/^/$tag /" >> "$log"
 done
